@@ -89,20 +89,20 @@ RELATIONAL_OPERATOR: EQ_OPERATOR | NEQ_OPERATOR | COMP_OPERATOR | IN_OPERATOR
 EQ_OPERATOR: "="
 NEQ_OPERATOR: "!="
 COMP_OPERATOR: /<=?/ | />=?/
-IN_OPERATOR.2: "in"
+IN_OPERATOR.2: /\bin\b/
 
-NOT_OPERATOR.3: "not"
+NOT_OPERATOR.3: /\bnot\b/
 IF_OPERATOR.3: IMPLIES_OPERATOR | IFF_OPERATOR
-IMPLIES_OPERATOR.3: "implies"
-IFF_OPERATOR.3: "iff"
-OR_OPERATOR.3: "or"
-AND_OPERATOR.3: "and"
+IMPLIES_OPERATOR.3: /\bimplies\b/
+IFF_OPERATOR.3: /\biff\b/
+OR_OPERATOR.3: /\bor\b/
+AND_OPERATOR.3: /\band\b/
 
 QUANT_OPERATOR.4: ALL_OPERATOR | SOME_OPERATOR
-ALL_OPERATOR.4: "forall"
-SOME_OPERATOR.4: "exists"
+ALL_OPERATOR.4: /\bforall\b/
+SOME_OPERATOR.4: /\bexists\b/
 
-CONSTANT.5: "PI" | "INF" | "NAN" | "E"
+CONSTANT.5: /\b(PI|INF|NAN|E)\b/
 ADD_OPERATOR: "+" | "-"
 MULT_OPERATOR: "*" | "/"
 POWER_OPERATOR: "**"
@@ -113,19 +113,19 @@ L_RANGE_INC: "["
 R_RANGE_EXC: "]!"
 R_RANGE_INC: "]"
 
-_KW_TO.4: "to"
-_KW_IN.4: "in"
-_KW_AS.4: "as"
-_KW_OR.4: "or"
-_KW_WITHIN.4: "within"
-_KW_NO.4: "no"
-_KW_SOME.4: "some"
-_KW_REQUIRES.4: "requires"
-_KW_CAUSES.4: "causes"
-_KW_FORBIDS.4: "forbids"
-_KW_AFTER.4: "after"
-_KW_UNTIL.4: "until"
-_KW_GLOBALLY.4: "globally"
+_KW_TO.4: /\bto\b/
+_KW_IN.4: /\bin\b/
+_KW_AS.4: /\bas\b/
+_KW_OR.4: /\bor\b/
+_KW_WITHIN.4: /\bwithin\b/
+_KW_NO.4: /\bno\b/
+_KW_SOME.4: /\bsome\b/
+_KW_REQUIRES.4: /\brequires\b/
+_KW_CAUSES.4: /\bcauses\b/
+_KW_FORBIDS.4: /\bforbids\b/
+_KW_AFTER.4: /\bafter\b/
+_KW_UNTIL.4: /\buntil\b/
+_KW_GLOBALLY.4: /\bglobally\b/
 
 CHANNEL_NAME: /[\/~]?[a-zA-Z][0-9a-zA-Z_]*(\/[a-zA-Z][0-9a-zA-Z_]*)*/
 
@@ -147,13 +147,13 @@ FREQ_UNIT: "hz"
 HPL_GRAMMAR = r"""
 hpl_file: _list_of_properties
 
-_list_of_properties: (_list_of_properties)? hpl_property
+_list_of_properties: _list_of_properties? hpl_property
 
 hpl_property: [metadata] _scope ":" _pattern
 
 metadata: _metadata_items
 
-_metadata_items: (_metadata_items)? "#" _metadata_item
+_metadata_items: _metadata_items? "#" _metadata_item
 
 _metadata_item: metadata_id
               | metadata_title
@@ -297,20 +297,20 @@ RELATIONAL_OPERATOR: EQ_OPERATOR | NEQ_OPERATOR | COMP_OPERATOR | IN_OPERATOR
 EQ_OPERATOR: "="
 NEQ_OPERATOR: "!="
 COMP_OPERATOR: /<=?/ | />=?/
-IN_OPERATOR.2: "in"
+IN_OPERATOR.2: /\bin\b/
 
-NOT_OPERATOR.3: "not"
+NOT_OPERATOR.3: /\bnot\b/
 IF_OPERATOR.3: IMPLIES_OPERATOR | IFF_OPERATOR
-IMPLIES_OPERATOR.3: "implies"
-IFF_OPERATOR.3: "iff"
-OR_OPERATOR.3: "or"
-AND_OPERATOR.3: "and"
+IMPLIES_OPERATOR.3: /\bimplies\b/
+IFF_OPERATOR.3: /\biff\b/
+OR_OPERATOR.3: /\bor\b/
+AND_OPERATOR.3: /\band\b/
 
 QUANT_OPERATOR.4: ALL_OPERATOR | SOME_OPERATOR
-ALL_OPERATOR.4: "forall"
-SOME_OPERATOR.4: "exists"
+ALL_OPERATOR.4: /\bforall\b/
+SOME_OPERATOR.4: /\bexists\b/
 
-CONSTANT.5: "PI" | "INF" | "NAN" | "E"
+CONSTANT.5: /\b(PI|INF|NAN|E)\b/
 ADD_OPERATOR: "+" | "-"
 MULT_OPERATOR: "*" | "/"
 POWER_OPERATOR: "**"
@@ -321,19 +321,19 @@ L_RANGE_INC: "["
 R_RANGE_EXC: "]!"
 R_RANGE_INC: "]"
 
-_KW_TO.4: "to"
-_KW_IN.4: "in"
-_KW_AS.4: "as"
-_KW_OR.4: "or"
-_KW_WITHIN.4: "within"
-_KW_NO.4: "no"
-_KW_SOME.4: "some"
-_KW_REQUIRES.4: "requires"
-_KW_CAUSES.4: "causes"
-_KW_FORBIDS.4: "forbids"
-_KW_AFTER.4: "after"
-_KW_UNTIL.4: "until"
-_KW_GLOBALLY.4: "globally"
+_KW_TO.4: /\bto\b/
+_KW_IN.4: /\bin\b/
+_KW_AS.4: /\bas\b/
+_KW_OR.4: /\bor\b/
+_KW_WITHIN.4: /\bwithin\b/
+_KW_NO.4: /\bno\b/
+_KW_SOME.4: /\bsome\b/
+_KW_REQUIRES.4: /\brequires\b/
+_KW_CAUSES.4: /\bcauses\b/
+_KW_FORBIDS.4: /\bforbids\b/
+_KW_AFTER.4: /\bafter\b/
+_KW_UNTIL.4: /\buntil\b/
+_KW_GLOBALLY.4: /\bglobally\b/
 
 CHANNEL_NAME: /[\/~]?[a-zA-Z][0-9a-zA-Z_]*(\/[a-zA-Z][0-9a-zA-Z_]*)*/
 
